@@ -1,6 +1,6 @@
 (* The call conventions of wrapper / async_wrapper followed by Python's argument binding, for the reference
-   configuration: outside the arrival-order fallback of _as_args the body's binding is a function (`pyb`) of the
-   result dictionary alone - the same for all three conventions - and depends on it only name by name. *)
+   configuration: the body's binding is a function (`pyb`) of the result dictionary alone - the same for all three
+   conventions - and depends on it only name by name. *)
 From Coq Require Import List Arith Bool Permutation Lia.
 From PV Require Import Base.Exn Model.ValidateSem Spec.ValidateSpec Proofs.ValidateDict Proofs.ValidateRef.
 Import ListNotations.
@@ -16,9 +16,6 @@ Notation rr := reference_req_rule.
 
 Definition notnone (kv : name * value) : bool := negb (is_none (snd kv)).
 
-Definition as_args_ref (r : dict) : list value * dict :=
-  if negb (s_varkw sg) && unknown_key value sg r then (map snd r, []) else take_prefix value (s_params sg) r.
-
 Definition norm (mode : return_as) (r : dict) : dict :=
   match mode with KWARGS_WITHOUT_NONE => filter notnone r | _ => r end.
 
@@ -26,7 +23,7 @@ Definition conv_m (mode : return_as) (r : dict) : list value * dict :=
   let r' := norm mode r in
   match dget self_name r' with
   | Some v => ([v], dremove self_name r')
-  | None => match mode with ARGS => as_args_ref r' | _ => ([], r') end
+  | None => match mode with ARGS => take_prefix value (s_params sg) r' | _ => ([], r') end
   end.
 
 Lemma conv_ref : forall (dc : deco value) is_async r,
@@ -38,8 +35,8 @@ Proof.
     try (destruct (dget self_name r); [reflexivity|]);
     try (destruct (dget self_name (filter notnone r)); reflexivity);
     try reflexivity;
-    unfold as_args, as_args_ref; cbn [reference_cfg aa_arrival_on_unknown_key aa_signature_order negb];
-    rewrite andb_true_r, orb_false_r; reflexivity.
+    unfold as_args; cbn [reference_cfg aa_arrival_on_unknown_key aa_signature_order negb];
+    rewrite andb_false_r; reflexivity.
 Qed.
 
 (* what the body observes, given the dictionary _wrapper_content returned *)
@@ -229,10 +226,6 @@ Qed.
 Definition self_ok (r : dict) : Prop :=
   dmem self_name r = true -> exists sp rest, pos_params value sg = sp :: rest /\ sp_name sp = self_name.
 
-(* _as_args does not fall back to arrival order *)
-Definition no_fallback (mode : return_as) (r : dict) : Prop :=
-  mode = ARGS -> dget self_name r = None -> negb (s_varkw sg) && unknown_key value sg r = false.
-
 Lemma nodup_norm : forall mode r, NoDup (keys r) -> NoDup (keys (norm mode r)).
 Proof. intros [] r H; simpl; try assumption. now apply nodup_filter_keys. Qed.
 
@@ -242,16 +235,16 @@ Proof.
 Qed.
 
 Theorem observe_normal : forall mode r,
-  NoDup (keys r) -> self_ok r -> no_fallback mode r -> observe mode r = of_outcome (pyb (norm mode r)).
+  NoDup (keys r) -> self_ok r -> observe mode r = of_outcome (pyb (norm mode r)).
 Proof.
-  intros mode r ND SO NF. unfold observe, conv_m.
+  intros mode r ND SO. unfold observe, conv_m.
   assert (ND' := nodup_norm mode r ND).
   destruct (dget self_name (norm mode r)) as [v|] eqn:G.
   - destruct SO as (sp & rest & PP & SN).
     { apply (dmem_norm mode). unfold dmem. now rewrite G. }
     now rewrite (splits_bind _ _ _ (splits_self _ _ _ _ ND' G PP SN)).
   - destruct mode.
-    + cbn [norm] in *. unfold as_args_ref. rewrite (NF eq_refl G).
+    + cbn [norm] in *.
       destruct (take_prefix value (s_params sg) r) as [pos kw] eqn:T.
       now rewrite (splits_bind _ _ _ (splits_prefix _ _ _ ND T)).
     + now rewrite (splits_bind _ _ _ (splits_kw _)).
